@@ -37,9 +37,15 @@ package dispatcher
 //@   requires s.scionLayer.DstAddrType == slayers.T4Svc ==> len(s.scionLayer.RawDstAddr) == 4
 //@   modifies nothing
 //@   ensures result1 == nil && s.scionLayer.DstAddrType != slayers.T4Svc ==> result0.port == s.udpLayer.DstPort
+//@ # echo and traceroute replies go to the port named by the identifier of the reply itself (first two payload
+//@ # bytes); SCMP errors go by the quoted packet, whose decoding (gopacket.NewPacket) is not interpreted
 //@ func (*Server).getDstSCMP
-//@   trusted
-//@   modifies nothing
+//@   props C44
+//@   nosafety
+//@   requires s != nil
+//@   let ty = uint8(s.scmpLayer.TypeCode >> 8)
+//@   let pld = s.scmpLayer.BaseLayer.Payload
+//@   ensures result1 == nil && (ty == 129 || ty == 131) ==> len(pld) >= 4 && result0.port == uint16(pld[0])<<8|uint16(pld[1])
 
 //@ # ---- the layer decoders, the decoded-layer list and the serialize buffer live in the Server that is being run:
 //@ # `cur` names it, so that the assumed effects of the gopacket calls can be stated (they write the decoders registered
@@ -101,6 +107,8 @@ package dispatcher
 //@   ensures result == nil ==> s.scionLayer.NextHdr == slayers.L4SCMP && s.scionLayer.DstIA == old(s.scionLayer.SrcIA) && s.scionLayer.SrcIA == old(s.scionLayer.DstIA)
 //@ func (*Server).processMsgNextHop
 //@   props C44
+//@   # assumed frame: deriving the destination of an SCMP message (decoding the quoted packet) does not write the Server
+//@   callmod (*Server).getDstSCMP: nothing
 //@   requires s != nil && s == cur && s.parser != nil && s.outBuffer != nil && ltDistinct(0)
 //@   ensures result0 != nil && result1.ip.z.value != nil ==> result1 == prevHop || unmapped(result1.ip) == unmapped(underlay)
 //@   ensures result0 != nil && result1.ip.z.value != nil && result1 != prevHop ==> sameArray(result0, buf) && len(result0) == len(buf)
